@@ -344,3 +344,20 @@ V("C17", "last-response-remembered", "detect", "provider remembers the last vali
   (DR, "	err = sp.Validate(decodedResponse)\n	if err != nil {\n		return nil, err\n	}\n\n	return decodedResponse, nil\n}\n\n// DecodeUnverifiedBaseResponse", "	err = sp.Validate(decodedResponse)\n	if err != nil {\n		return nil, err\n	}\n\n	lastResponse = decodedResponse\n	return decodedResponse, nil\n}\n\n// DecodeUnverifiedBaseResponse"))
 V("C17", "unlock-forgotten", "detect", "write lock not released on the panic-free path",
   (SA, "	sp.signingContextMu.Lock()\n	defer sp.signingContextMu.Unlock()\n", "	sp.signingContextMu.Lock()\n"))
+
+# ---------------- decoded objects are written by the decoder only (C01-R8 / C04-R6 / C08-R6 / C10-R6)
+V("C04", "normalise-destination-after-decode", "detect", "Destination of the signed Response normalised after decoding",
+  (DR, "		decodedResponse.SignatureValidated = responseSignatureValidated\n\n		err := sp.Validate(decodedResponse)", "		decodedResponse.SignatureValidated = responseSignatureValidated\n		decodedResponse.Destination = strings.TrimSuffix(decodedResponse.Destination, \"/\")\n\n		err := sp.Validate(decodedResponse)"),
+  (DR, "	\"io\"\n", "	\"io\"\n	\"strings\"\n"),
+  needs="signed Response whose Destination has a trailing slash the ACS URL lacks")
+V("C08", "nameid-trimmed-after-decode", "detect", "NameID of the first assertion trimmed in place after validation",
+  (DR, "		decodedResponse.SignatureValidated = responseSignatureValidated\n\n		err := sp.Validate(decodedResponse)\n		if err != nil {\n			return nil, err\n		}\n",
+       "		decodedResponse.SignatureValidated = responseSignatureValidated\n\n		err := sp.Validate(decodedResponse)\n		if err != nil {\n			return nil, err\n		}\n		if s := decodedResponse.Assertions[0].Subject; s != nil && s.NameID != nil {\n			s.NameID.Value = strings.TrimSpace(s.NameID.Value)\n		}\n"),
+  (DR, "	\"io\"\n", "	\"io\"\n	\"strings\"\n"),
+  needs="signed NameID with surrounding whitespace")
+V("C10", "logout-nameid-lowercased", "detect", "LogoutRequest NameID lower-cased after decoding",
+  (LQ, "	decodedRequest.SignatureValidated = requestSignatureValidated\n", "	decodedRequest.SignatureValidated = requestSignatureValidated\n	if decodedRequest.NameID != nil {\n		decodedRequest.NameID.Value = strings.ToLower(decodedRequest.NameID.Value)\n	}\n"),
+  (LQ, "import (\n", "import (\n	\"strings\"\n"),
+  needs="signed LogoutRequest with a mixed-case NameID")
+V("C01", "benign-reset-make", "silent", "assertion lists reset with make() instead of empty literals",
+  (DR, "	decodedResponse.Assertions = []types.Assertion{}\n	decodedResponse.EncryptedAssertions = []types.EncryptedAssertion{}\n", "	decodedResponse.Assertions = make([]types.Assertion, 0, 2)\n	decodedResponse.EncryptedAssertions = make([]types.EncryptedAssertion, 0)\n"))
